@@ -306,8 +306,14 @@ func (g *edGen) plainAttrs(w *edW, d int) {
 		w.line(d, "style.fill: "+Pick(r, []string{"red", "blue", "honeydew"}))
 		w.line(d, "style.stroke: "+Pick(r, []string{"red", "blue", "honeydew"}))
 	}
+	used := map[int]bool{}
 	for i := 0; i < r.Range(0, 2); i++ {
-		switch r.Intn(5) {
+		kind := r.Intn(5)
+		if used[kind] {
+			continue // never the same attribute twice in a plain map
+		}
+		used[kind] = true
+		switch kind {
 		case 0:
 			w.line(d, "shape: "+Pick(r, SimpleShapes))
 		case 1:
